@@ -138,6 +138,19 @@ def run(ctx):
         if not (dom.relclose(t0, wt, 1e-12) and dom.relclose(p0, wp, 1e-12)):
             bad("pseudocritical point without contaminants is not the hydrocarbon-only correlation", dict(sg=sg, fluid=dry), dict(got=[t0, p0], want=[wt, wp]))
         n2, h2s, co2 = (float(rng.uniform(0, 0.08)) for _ in range(3))
+        if k % 5 == 0:
+            # other spellings of the documented fluid types: rejected, or evaluated as the type they name
+            clo = lambda u, v: dom.relclose(u[0], v[0], 1e-12) and dom.relclose(u[1], v[1], 1e-12)
+            ev += dom.check_dryness_spellings(lambda nm: [float(x) for x in gas.pseudocritical_point_Sutton(sg, gas.make_nonhydrocarbon_properties(n2, h2s, co2), nm)],
+                                              lambda what, sp, obs: bad("pseudocritical_point_Sutton: " + what, dict(sg=sg, n2=n2, h2s=h2s, co2=co2, fluid=sp), obs), clo)
+            vals_s = {"N2": n2, "H2S": h2s, "CO2": co2, "Gas Specific Gravity": sg, "Reservoir Temperature (deg F)": 250.0}
+
+            def table_z(nm):
+                with warnings.catch_warnings():
+                    warnings.simplefilter("ignore")
+                    return [float(x) for x in np.asarray(build_pvt_gas(dict(vals_s), nm, 400.0)["z-factor"], float)[::8]]
+            ev += dom.check_dryness_spellings(table_z, lambda what, sp, obs: bad("build_pvt_gas: " + what, dict(gas_values=vals_s, fluid=sp), obs),
+                                              lambda u, v: len(u) == len(v) and np.allclose(u, v, rtol=1e-12))
         a = gas.pseudocritical_point_Sutton(sg, gas.make_nonhydrocarbon_properties(n2, h2s, co2), dry)
         b = gas.pseudocritical_point_Sutton(sg, gas.make_nonhydrocarbon_properties(n2, h2s, co2, ("Argon", 0.0, 39.95, 271.0, 705.0)), dry)
         ev += 1
